@@ -42,6 +42,8 @@ type VictimOp struct {
 	// call fails once), so the follow-up runs on a healthy file system: state that
 	// a failed operation left behind in memory must not reach the disk through it.
 	Then string `json:"then,omitempty"`
+	// PreRebuilding: the victim sets the rebuilding flag (outside the traced window) before the operation
+	PreRebuilding bool `json:"prerebuilding,omitempty"`
 }
 
 const (
@@ -86,6 +88,12 @@ func victimMain() int {
 			mode = "RW"
 		}
 		s.SetReplicaMode(mode)
+	}
+	if op.PreRebuilding && s.Replica() != nil {
+		if err := s.SetRebuilding(true); err != nil {
+			fmt.Println("RESULT harness-error setrebuilding:", err)
+			return 4
+		}
 	}
 	syscall.Access(markBegin, 0)
 	err := victimDo(s, dir, op)
